@@ -751,6 +751,22 @@ def add_bad(b, chrom, kind, other=None):
     return back
 
 
+def pretagged(lines, rng, mode):
+    """S lines with BO/NO already present"""
+    out = []
+    for l in lines:
+        if l.startswith("S\t") and (mode == "all" or rng.random() < 0.5):
+            p = l.split("\t")
+            extra = ["BO:i:%d" % rng.randint(0, 40), "NO:i:%d" % rng.randint(0, 5)]
+            if mode == "some":
+                extra = extra[:rng.randint(1, 2)]
+            for t in extra:
+                p.insert(rng.randint(3, len(p)), t)
+            l = "\t".join(p)
+        out.append(l)
+    return out
+
+
 def perm_lines(lines, rng, limit):
     """all permutations of the lines when <= 7 lines (and within limit), else `limit` seeded shuffles (first = reversed)"""
     n = len(lines)
